@@ -411,9 +411,14 @@ def _conc_phase(ctx, res, pid, mode, replay_ops, nq, nt):
         _conc_check(res, ops, impl, gmp, pid)
 
 
-def chf_run(ctx, res, n, replay_ops=None, gen_extra=()):
+def chf_run(ctx, res, n, replay_ops=None, gen_extra=(), also=()):
+    """also: further generator modes of the chf stream, [(mode, n quick, n thorough)], appended to the same run"""
     if replay_ops is not None:
         replay_ops = [o for o in replay_ops if o.startswith("chf ")]
+    elif also:
+        replay_ops = core.corpus_ops(ctx.pid, "chf") + core.harness_gen(ctx.harness, "chf", ctx.seed, n, ctx.tier, gen_extra)
+        for mode, nq, nt in also:
+            replay_ops += core.harness_gen(ctx.harness, "chf", ctx.seed, n_for(ctx, nq, nt), ctx.tier, ("-mode", mode))
     r = ctx.stream("chf", n, ops=replay_ops, extra_gen=gen_extra)
     # correspondence on everything
     for i, (op, im, mo) in enumerate(zip(r.ops, r.impl, r.model)):
@@ -435,7 +440,8 @@ def _chf_history(ops, i):
 
 def explore_c01(ctx, res, replay_ops=None):
     n = n_for(ctx, 600, 6000)
-    r = chf_run(ctx, res, n, replay_ops)
+    # + one-time events between / during / after the sessions of a subscriber, refused creates (mode events)
+    r = chf_run(ctx, res, n, replay_ops, also=[("events", 400, 3000)])
     prev = None
     last_reserved = {}
     for i, (op, im, mo) in enumerate(zip(r.ops, r.impl, r.model)):
@@ -539,7 +545,7 @@ def _parse_req(tokens):
         for _ in range(nc):
             conts.append(tuple(int(next(it)) for _ in range(6)))
         usages.append(dict(rg=rg, req=None if rq == "~" else int(rq), conts=conts))
-    return dict(supi=supi, nf=nf, seq=seq, trigs=trigs, usages=usages)
+    return dict(supi=supi, nf=nf, seq=seq, trigs=trigs, usages=usages, one=one)
 
 
 def explore_c06(ctx, res, replay_ops=None):
@@ -663,24 +669,31 @@ PROPS["C06"] = dict(lean=["ChfVerif.Props.C06"], explore=explore_c06,
 # ------------------------------------------------------------------ C12 (API contract)
 
 def _state_part(line):
-    """everything of an observation that describes state (balances + per-subscriber dumps)"""
+    """everything of an observation that describes state (balances + per-subscriber dumps); a subscriber context
+    that holds nothing (no reservation, no session, no record - what a create refused by OpenCDR leaves behind for a
+    subscriber the CHF had not seen) is no account, reservation or record change and is left out"""
     i = line.find(" bal=")
-    return line[i:] if i >= 0 else line
+    st = line[i:] if i >= 0 else line
+    st = re.sub(r" [0-9a-f]+ money=- cdr=- rec=-(?= |$)", "", st)
+    return re.sub(r" nue=\d+", "", st)
 
 
 def explore_c12(ctx, res, replay_ops=None):
     n = n_for(ctx, 700, 6000)
-    r = chf_run(ctx, res, n, replay_ops, gen_extra=("-mode", "api"))
+    # + one-time events and creates refused by OpenCDR (mode events); consumer names / references with characters
+    #   that are escaped in a URI, and references whose percent-decoding would be a live reference (mode escapes)
+    r = chf_run(ctx, res, n, replay_ops, gen_extra=("-mode", "api"), also=[("events", 300, 2500), ("escapes", 300, 2500)])
     prev_state = None
     known = {}        # supi -> set(live sids) as the implementation acknowledged them
     uri = {}
+    refused_only = set()
     for i, (op, im, mo) in enumerate(zip(r.ops, r.impl, r.model)):
         t = op.split()
         kind = t[1]
         if kind == "slowdb":
             continue
         if kind == "reset":
-            prev_state, known, uri = None, {}, {}
+            prev_state, known, uri, refused_only = None, {}, {}, set()
             continue
         if kind in ("acct", "credit", "end"):
             if kind != "end" and prev_state is not None:
@@ -704,20 +717,33 @@ def explore_c12(ctx, res, replay_ops=None):
             res.violation("oracle", "C12: answered %d" % st, hist())
         if kind == "create":
             rq = _parse_req(t[2:])
+            one_time = int(rq["one"]) & 1 == 1
             if st == 201:
                 loc = o.f.get("loc")
                 sids = set(known.get(rq["supi"], set()))
                 # the Location reference must be a key of the subscriber's session map
                 cdr = o.ues.get(rq["supi"], {}).get("cdr", "-")
                 keys = [] if cdr == "-" else [x.split(">")[0] for x in cdr.split(";")]
-                if loc in (None, "?") or loc not in keys:
+                if one_time:
+                    # an event opens no session: the reference part of its Location is empty and designates nothing
+                    res.dist["one-time-event:201"] += 1
+                    if loc != "-":
+                        res.violation("oracle", "C12: a one-time event was answered with the session reference %s" % loc, hist())
+                elif loc in (None, "?", "-") or loc not in keys:
                     res.violation("oracle", "C12: create answered 201 but the Location reference %s does not designate a session" % loc, hist())
                 if o.f.get("seq") != rq["seq"] or o.f.get("ts") != "1":
                     res.violation("oracle", "C12: create response does not echo the sequence number / carries no timestamp", hist())
-                known.setdefault(rq["supi"], set()).add(loc)
+                known.setdefault(rq["supi"], set())
+                if not one_time:
+                    known[rq["supi"]].add(loc)
                 uri[rq["supi"]] = True
             elif st // 100 == 2:
                 res.violation("oracle", "C12: create answered %d, expected 201" % st, hist())
+            elif int(rq["one"]) & 6:
+                # refused by the record validation only: whether the CHF "knows" the subscriber afterwards is not
+                # for this oracle to say (recharges for it are not judged until a create is accepted)
+                if rq["supi"] not in known:
+                    refused_only.add(rq["supi"])
         elif kind in ("update", "release"):
             sid = t[2]
             rq = _parse_req(t[3:])
@@ -737,7 +763,9 @@ def explore_c12(ctx, res, replay_ops=None):
             parts = info.split("_")
             ok_form = len(parts) == 2 and re.fullmatch(r"[+-]?\d+", parts[1] or "x") and -2**31 <= int(parts[1]) < 2**31
             sup_hex = parts[0].encode().hex() if parts[0] else "-"
-            if ok_form and sup_hex in known:
+            if ok_form and sup_hex in refused_only and sup_hex not in known:
+                res.outside_domain["recharge-after-refused-create-only"] += 1
+            elif ok_form and sup_hex in known:
                 exp = "%s:%d" % (("/n/" + parts[0]).encode().hex(), int(parts[1]))
                 if st != 204 or o.f.get("notif") != exp:
                     res.violation("oracle", "C12: recharge of a known subscriber answered %d notif=%s (expected 204, %s)" % (
